@@ -89,8 +89,13 @@ func (set *Set) GetRandom(count int) []string {
 		return []string{}
 	}
 
-	if internal.AbsInt(count) >= set.Cardinality() {
+	// A positive count asks for distinct members, so the whole set is the most that can be returned.
+	// A negative count allows repeats and always yields exactly that many members.
+	if count > 0 && count >= set.Cardinality() {
 		return keys
+	}
+	if len(keys) == 0 {
+		return []string{}
 	}
 
 	res := []string{}
